@@ -20,7 +20,8 @@
 (***************************************************************************)
 EXTENDS PFB, TLC, Json, CSV
 
-CONSTANTS Family, MaxSegs, MaxLen, MaxCap, Rich, WithShort, OutFile
+CONSTANTS Family, MaxSegs, MaxLen, MaxCap, Rich, WithShort, OutFile,
+          ZeroReads     \* TRUE: buffer-size sequences may contain one call with an empty buffer (not the first)
 
 VARIABLES phase,    \* "segs", "tail", "env", "run", "done"
           strm,     \* abstract stream under construction: [segs, tail]
@@ -32,7 +33,7 @@ vars == <<phase, strm, cx, env, caps, pos, req, fin>>
 NoCx == [inp |-> <<>>, D |-> <<>>, term |-> "eof"]
 NoEnv == [chunks |-> <<1>>, eofwd |-> FALSE]
 Init == /\ PfbInit
-        /\ phase = (CASE Family = "exh" -> "segs" [] Family = "sim" -> "pick" [] Family = "hdr" -> "b0")
+        /\ phase = (CASE Family = "exh" -> "segs" [] Family = "sim" -> "pick" [] Family = "hdr" -> "b0" [] Family = "big" -> "big")
         /\ strm = [segs |-> <<>>, tail |-> PfbTailEof]
         /\ cx = NoCx /\ env = NoEnv /\ caps = <<>>
 
@@ -69,7 +70,8 @@ ExhEnv == /\ phase = "env"
           /\ phase' = "run"
           /\ UNCHANGED <<strm, cx, caps, pos, req, fin>>
 ExhRun == /\ phase = "run" /\ Family = "exh"
-          /\ \E c \in 1..MaxCap : Walk(c)
+          /\ \/ \E c \in 1..MaxCap : Walk(c)
+             \/ ZeroReads /\ caps # <<>> /\ (\A j \in 1..Len(caps) : caps[j] # 0) /\ Walk(0)
           /\ UNCHANGED <<strm, cx, env>>
 
 \* ------------------------------------------------------------ family "sim"
@@ -102,7 +104,7 @@ SimPick ==
     /\ phase' = "run"
     /\ UNCHANGED <<caps, pos, req, fin>>
 SimRun == /\ phase = "run" /\ Family = "sim"
-          /\ \E c \in {RandomElement(1..64)} : Walk(c)
+          /\ \E c \in {RandomElement(0..64)} : Walk(IF c = 0 /\ (caps = <<>> \/ caps[Len(caps)] = 0) THEN 1 ELSE c)
           /\ UNCHANGED <<strm, cx, env>>
 
 \* ------------------------------------------------------------ family "hdr"
@@ -126,7 +128,23 @@ HdrRun == /\ phase = "run" /\ Family = "hdr"
           /\ Walk(3)
           /\ UNCHANGED <<strm, cx, env>>
 
-Next == ExhSegs \/ ExhTail \/ ExhEnv \/ ExhRun \/ SimPick \/ SimRun \/ HdrB0 \/ HdrB1 \/ HdrRun
+\* ------------------------------------------------------------ family "big"
+\* segments whose length needs the third and the fourth byte of the length field.  The payload is
+\* described, not written out: byte i (from 1) of a payload is (a * i + c) % 256 as in SimData; the
+\* six header bytes are the specification's; the harness expands the description.
+BigLens == {65535, 65536, 65537, 16777215, 16777216, 16777219}
+BigPick == /\ phase = "big"
+           /\ \E t1 \in 1..2, l1 \in BigLens, t2 \in 0..2, tl \in {"eof", "marker"}, ew \in BOOLEAN :
+                 /\ (~Rich => (ew = (t1 = 1) /\ t2 \in {0, 3 - t1}))
+                 /\ strm' = [segs |-> <<[hdr |-> PfbHeader(t1, l1), ty |-> t1, n |-> l1, a |-> 7, c |-> 3]>>
+                                      \o (IF t2 = 0 THEN <<>> ELSE <<[hdr |-> PfbHeader(t2, 5), ty |-> t2, n |-> 5, a |-> 11, c |-> 200]>>),
+                             tail |-> IF tl = "eof" THEN PfbTailEof ELSE PfbTailMarker(<<>>)]
+                 /\ env' = [chunks |-> <<65536, 4097>>, eofwd |-> ew]
+                 /\ caps' = <<4096, 65537>>
+           /\ phase' = "done"
+           /\ UNCHANGED <<cx, pos, req, fin>>
+
+Next == ExhSegs \/ ExhTail \/ ExhEnv \/ ExhRun \/ SimPick \/ SimRun \/ HdrB0 \/ HdrB1 \/ HdrRun \/ BigPick
 
 \* ------------------------------------------------------------- invariants
 \* the generator's and the reader's description of a stream agree
@@ -139,14 +157,19 @@ HdrExactly == (Family = "hdr" /\ phase = "run") =>
                   ((cx.term = "invalid") <=> PfbBadHeader(cx.inp[1], cx.inp[2]))
 \* the reporting classes are consistent with the contract (all counts, error classes, and one wrong byte)
 ClassAgrees == (phase = "run" /\ Len(caps) <= 1 /\ env = [chunks |-> <<1>>, eofwd |-> FALSE]) =>
-    \A c \in 1..3, n \in 0..4, e \in PfbErrClasses, flip \in BOOLEAN :
+    \A c \in 0..3, n \in 0..4, e \in PfbErrClasses, flip \in BOOLEAN :
         LET good == SubSeq(cx.D, pos + 1, PfbMin(pos + n, Len(cx.D)))
             out == IF flip /\ good # <<>> THEN [good EXCEPT ![1] = (@ + 1) % 256] ELSE good
         IN (PfbRejectClass(cx.D, cx.term, pos, c, n, out, e) = "ok") <=> PfbReadOK(cx.D, cx.term, pos, c, n, out, e)
 PrefixOK == pos <= Len(cx.D)
 
-Desc == [j \in 1..Len(strm.segs) |-> <<strm.segs[j].ty, Len(strm.segs[j].data)>>]
+Desc == [j \in 1..Len(strm.segs) |-> <<strm.segs[j].ty, IF Family = "big" THEN strm.segs[j].n ELSE Len(strm.segs[j].data)>>]
 Emit == phase = "done" =>
+           IF Family = "big"
+           THEN CSVWrite("%1$s", <<ToJson([fam |-> Family, desc |-> Desc, tail |-> strm.tail.k, parts |-> strm.segs,
+                                           inp |-> <<>>, D |-> <<>>, term |-> "eof",
+                                           caps |-> caps, chunks |-> env.chunks, eofwd |-> env.eofwd])>>, OutFile)
+           ELSE
            CSVWrite("%1$s", <<ToJson([fam |-> Family, desc |-> Desc, tail |-> strm.tail.k,
                                       inp |-> cx.inp, D |-> cx.D, term |-> cx.term,
                                       caps |-> caps, chunks |-> env.chunks, eofwd |-> env.eofwd])>>, OutFile)
